@@ -77,6 +77,15 @@ const (
 	OpUpdate = "U" // Table, Vals (primary key values), Row (new row)
 	OpDelete = "D" // Table, Vals (primary key values)
 	OpAbort  = "A"
+	// OpAbortGoOn: Abort() and then still call Complete() (what code does that
+	// catches the failure of a statement, which aborted the transaction, and
+	// carries on to the end of the transaction block)
+	OpAbortGoOn = "AC"
+	// OpWait blocks until the harness event named in Vals[0] happened:
+	// "persist" (the persister thread's forced persist returned) or
+	// "commits:N" (N transactions completed successfully). It builds histories
+	// that need a particular order without spending preemptions on it.
+	OpWait = "W"
 )
 
 // Op is one step of a transaction script.
@@ -108,6 +117,8 @@ func (o Op) String() string {
 		return fmt.Sprintf("U %s%v=(%s)", o.Table, o.Vals, o.Row)
 	case OpDelete:
 		return fmt.Sprintf("D %s%v", o.Table, o.Vals)
+	case OpWait:
+		return "W " + strings.Join(o.Vals, "")
 	}
 	return o.Kind
 }
@@ -429,8 +440,10 @@ func (m MDB) Apply(o Op) string {
 		return m.Update(o.Table, o.Vals, o.Row)
 	case OpDelete:
 		return m.Delete(o.Table, o.Vals)
-	case OpAbort:
+	case OpAbort, OpAbortGoOn:
 		return "abort"
+	case OpWait:
+		return "ok"
 	}
 	panic("bad op " + o.Kind)
 }
